@@ -100,16 +100,22 @@ CHECKS["C14"] = dict(
 CHECKS["C18"] = dict(
     category="other",
     technique="partial-function guard analysis of enum/flag factories; mapping-inversion and loader/dumper pairing "
-              "rules; flag mask validation rules",
+              "rules; flag mask validation rules; table stage (tier G): the factories of the five providers are run for "
+              "enumerated enum / flag classes and options, the tables captured by the handed-out closures are read from "
+              "their cells (nothing is called) and compared with an independent oracle of the documented representation",
     text="Decides creation totality (no partial stdlib function is applied to an unguarded member value inside the "
          "factories, so zero-valued flag members cannot break loader/dumper creation), that the loading table is the "
          "exact inversion of the dumping table over the same cases for every provider using a mapping generator, that "
          "the exact-value flag loader exists only for non-negative contiguous masks and checks exact ints within "
-         "[0, mask], and that the exact-value enum loader rejects members themselves. Necessary structural conditions "
-         "of the bijection, not the bijection on concrete enums.",
+         "[0, mask], and that the exact-value enum loader rejects members themselves. On the enumerated classes of the "
+         "table stage it also decides that the captured member->name and name->member tables are the documented names "
+         "and mutually inverse over the documented cases, that the exact-value tables hold every member, that the flag "
+         "mask is the union of all members and that creation succeeds except for the documented exclusions. Necessary "
+         "structural conditions of the bijection plus the tables on concrete classes; the flag-list dumper's cover "
+         "algorithm is decided by rule only, never executed.",
     level_note="Trusted: Python ast. Assumes enum classes have a member. Exception escape of the loader closures is "
                "decided under C04.",
-    design_ref="DESIGN.md 3/C18",
+    design_ref="DESIGN.md 3/C18, 8.5 (C18 table stage)",
 )
 
 CHECKS["C06"] = dict(
